@@ -434,6 +434,10 @@ def r7_solved_flag(R) -> None:
         if isinstance(n, ast.Assign) and is_self_call(n.value, 'solve_t') and len(n.targets) == 1 \
                 and isinstance(n.targets[0], ast.Subscript) and text(n.targets[0].value) == 'solved':
             hits += 1
+    # the policy options reach solve_t unchanged from both the multi-period and the single-period entry point
+    from rules import c02, c05
+    c02.r9_solve_period(R)
+    c05.r1_solve_loop(R)
     R.check(hits == 1, q, 'solved-flag', 'solve() records the flag returned by solve_t per period',
             'solve() does not store the result of self.solve_t(...) in solved[i]', where=fi.where)
 
